@@ -553,7 +553,8 @@ class C05(Check):
         # something that is not an event at all is certainly not a declared event type
         for si, noerr, res in obs["junkchecks"]:
             if res != ["exc", "revent"] and not (noerr and S_[si]["acceptAll"] and res == "none"):
-                return "undeclared: raising a non-event was not rejected (%s)" % (res[1] if isinstance(res, list) else res)
+                return "undeclared: raising a non-event with %s was not rejected (%s)" % (
+                    "raiseEventNoErrors" if noerr else "raiseEvent", res[1] if isinstance(res, list) else res)
         # unsubscription
         for form, was, still, res in obs["rmchecks"]:
             if still: return "unsubscribe: removeListener form %s left the subscription in place (%s)" % (form, res)
@@ -608,7 +609,8 @@ class C05(Check):
         if failure.startswith("unsubscribe: subscription"): return "unsubscribe:vanished-without-reason"
         if failure.startswith("order:"): return "order:list-not-sorted"
         if failure.startswith("once: the code of one-shot"): return "once:fired-twice:reentrant-raise"
-        if failure.startswith("undeclared: raising a non-event"): return "undeclared:non-event-raise:" + failure.rsplit("(", 1)[1].rstrip(")")
+        if failure.startswith("undeclared: raising a non-event"):
+            return "undeclared:non-event-raise:%s:%s" % (failure.rsplit("(", 1)[1].rstrip(")"), "noerr" if "raiseEventNoErrors" in failure else "plain")
         if failure.startswith("undeclared: raising an instance"): return "undeclared:instance-accepted:" + failure.rsplit("(", 1)[1].rstrip(")").replace(" ", "-")
         if failure.startswith("unsubscribe:"):
             return "unsubscribe:" + failure.split("form ")[1].split(" ")[0] + ":" + failure.rsplit("(", 1)[1].rstrip(")")
